@@ -224,12 +224,12 @@ async fn run_case(
                         log.push(json!({"t": t_rel, "op": op.name(), "result": "ok", "session": k}));
                         // judge
                         if links[l].commits_ok > 0 {
-                            acc.violation(
+                            crate::sim::violation(acc, 
                                 "c37/exchange-accepted-after-commit",
                                 witness(cfg, ops, &log, "link exchanged successfully after a successful commit of the same link"),
                             );
                         } else if ct >= links[l].expiry {
-                            acc.violation(
+                            crate::sim::violation(acc, 
                                 "c37/exchange-accepted-after-expiry",
                                 witness(cfg, ops, &log, "link exchanged successfully at/after its expiry time"),
                             );
@@ -288,12 +288,12 @@ async fn run_case(
                         acc.count("commit.ok");
                         log.push(json!({"t": t_rel, "op": op.name(), "result": "ok"}));
                         if links[l].commits_ok > 0 {
-                            acc.violation(
+                            crate::sim::violation(acc, 
                                 "c37/second-commit-accepted-on-link",
                                 witness(cfg, ops, &log, "a second commit succeeded for the same link"),
                             );
                         } else if superseded {
-                            acc.violation(
+                            crate::sim::violation(acc, 
                                 "c37/superseded-session-committed",
                                 witness(cfg, ops, &log, "a session superseded by a later successful exchange of the same link committed"),
                             );
@@ -339,7 +339,7 @@ async fn run_case(
                         } else {
                             "c37/credential-changed-without-successful-commit"
                         };
-                        acc.violation(
+                        crate::sim::violation(acc, 
                             sig,
                             witness(cfg, ops, &log, &format!("stored primary password does not verify the password of the last successful commit (verify -> {other:?})")),
                         );
@@ -354,7 +354,7 @@ async fn run_case(
         .await
     {
         Some(true) => {}
-        other => acc.violation(
+        other => crate::sim::violation(acc, 
             "c37/credential-changed-without-successful-commit",
             witness(cfg, ops, &log, &format!("at end of history the stored password is not the last successfully committed one (verify -> {other:?})")),
         ),
